@@ -37,7 +37,7 @@ BASES = ["traceback", "Failed expectation", "foo", "fxd", "diff", "reason"]
 
 def normalise_prog(p):
     script = {u: list(p["script"].get(u, [])) for u in UNITS}
-    return {"decor": bool(p["decor"]), "onexc": bool(p["onexc"]), "script": script}
+    return {"decor": bool(p["decor"]), "onexc": bool(p["onexc"]), "preforce": bool(p.get("preforce", False)), "script": script}
 
 
 def split_name(nm):
@@ -94,7 +94,7 @@ def observe(prog, flavours):
     first = None
     for fl in flavours:
         env = synth.Env(prog)
-        cls = synth.SynthSkipped if prog["decor"] else synth.SynthPlain
+        cls = synth.SynthSkipped if prog["decor"] else (synth.SynthRunTestWith if fl == "rtw" else synth.SynthPlain)
         case = cls(env)
         o, res = synth._run(case, env, fl)
         flav.append(o)
